@@ -89,6 +89,20 @@ Theorem C20_rewind_consultations : forall P prs skip r opt ops cs, fresh r -> r_
 Proof. exact rewind_any_history. Qed.
 Print Assumptions C20_rewind_consultations.
 
+(* the hypothesis is monotone in the retained map, so ONE hypothesis about the stream -- it is PAT-first with respect
+   to a set pm1 of PMT PIDs -- covers every rewind point of every history at which the retained map lies within pm1 *)
+Theorem C20_hypothesis_monotone : forall pm0 pm1 P prs skip cs, pm_sub pm0 pm1 -> forall s,
+  calls_pk pm1 P prs skip cs s -> calls_pk pm0 P prs skip cs s.
+Proof. exact calls_pk_sub. Qed.
+Print Assumptions C20_hypothesis_monotone.
+
+Theorem C20_rewind_within : forall P prs skip r opt ops cs pm1, fresh r -> r_kind r = Seekable ->
+  let s := run_ops P prs skip ops (init_dstate r opt) in
+  pm_sub (d_pm s) pm1 -> calls_pk pm1 P prs skip cs (init_dstate r opt) ->
+  fst (rewind s) = 0 /\ calls P prs skip cs (snd (rewind s)) = calls P prs skip cs (init_dstate r opt).
+Proof. exact rewind_any_history_within. Qed.
+Print Assumptions C20_rewind_within.
+
 (* ---- the hypotheses are satisfiable, and the PAT-first hypothesis is needed ---- *)
 
 (* a stream written by the muxer model: PAT, PMT (PID 4096), PES on PID 256, tables again, PES; real unit parsers *)
